@@ -11,7 +11,7 @@ sys.path.insert(0, ROOT)
 import warnings
 
 warnings.filterwarnings("ignore", category=RuntimeWarning)
-from runner import Part, run_check  # noqa: E402
+from runner import Part, kernel_extra, run_check  # noqa: E402
 
 SCHED_FUNCS = [
     "tawazi._dag.helpers.async_execute", "tawazi._dag.helpers.sync_execute", "tawazi._dag.helpers.wait_for_finished_nodes",
@@ -71,6 +71,9 @@ def sched_parts(pid: str, tier: str):
         # "nothing else runs": disabled / unreachable debug nodes and already-set-up nodes are not entered
         parts.append(Part("debug-nodes-N3", P(run_c13, GCfg(N=3, setup=False, activation=False, combined=False)), {"N": 3, "what": "debug nodes run only when enabled and only with their inputs available"}, 900, 5, ["w_debug_ran"], GRAPH_FUNCS))
         parts.append(Part("setup-histories-len3-N2", P(run_c11, HCfg(N=2, length=3, flavours="s")), {"N": 2, "length": 3, "what": "an already-set-up node is not entered again"}, 900, 8, ["w_reuse"], HIST_FUNCS))
+        from harness.history import run_c15
+
+        parts.append(Part("executor-histories-len2", P(run_c15, HCfg(length=2, flavours="sa")), {"length": "2+1", "what": "an executor re-run after a failed run enters every selected node (or refuses)"}, 900, 8, ["w_final_call"], HIST_FUNCS))
         if not q:
             mk("whole-run-N4-selection", Cfg(N=4, resources="tm", selection=True, sym_seq=False, monitors=mons), base_req, 1500, 9)
     elif pid == "C04":
@@ -318,6 +321,12 @@ def dataclass_bounds(cfg):
     return d
 
 
+# CrossHair kernels (engine CH) attached to checks: kernel-name prefixes
+KERNELS = {
+    "C01": ["k2", "k3", "k4"], "C02": ["k2"], "C03": ["k5", "k6_reuse"], "C07": ["k7"], "C12": ["k4", "k2_missing"],
+    "C15": ["k3", "k5_strictdict"], "C20": ["k6_ordinal", "k3_arguments"],
+}
+
 LEVEL = {
     "C02": "model_checking", "C03": "model_checking", "C04": "model_checking", "C05": "model_checking",
     "C06": "model_checking", "C08": "model_checking", "C09": "model_checking", "C14": "fault_enumeration",
@@ -329,24 +338,39 @@ RULE = ("paths of the symbolic execution of the real code: every upper-triangula
         "the abstract scheduler state (started sequence, observed set, blocked-on set, shape, resources)")
 
 
+def all_parts(pid, tier):
+    for f in (sched_parts, graph_parts, dataflow_parts, compose_parts, history_parts, thread_parts):
+        try:
+            ps = f(pid, tier)
+        except Exception:  # noqa: BLE001
+            ps = []
+        if ps:
+            return ps
+    return []
+
+
 def main(argv):
+    if len(argv) == 3 and argv[1] == "--replay":
+        from runner import replay_file
+
+        return replay_file(argv[0], all_parts(argv[0], "thorough") + all_parts(argv[0], "quick"), argv[2])
     if len(argv) != 2 or argv[1] not in ("quick", "thorough"):
-        print("usage: check <ID> <quick|thorough>")
+        print("usage: check <ID> <quick|thorough> | check <ID> --replay <file>")
         return 2
     pid, tier = argv
     os.environ["VERIF_TIER"] = tier
     if pid in ("C02", "C03", "C04", "C05", "C06", "C08", "C09", "C14", "C17"):
         parts = sched_parts(pid, tier)
-        return run_check(pid, tier, LEVEL[pid], parts, ENV_ASSUMPTIONS, RULE)
+        return run_check(pid, tier, LEVEL[pid], parts, ENV_ASSUMPTIONS, RULE, extra=KERNELS.get(pid) and kernel_extra(pid, KERNELS[pid]))
     if pid in ("C07", "C12", "C13"):
         rule = ("paths of the symbolic execution of the real graph algebra on programs built through the public API: shape x labeling x selection x alias form x "
                 "debug placement are solver-chosen decisions, priorities and node values symbolic; distinct = distinct (shape, labeling, selection, placement)")
-        return run_check(pid, tier, "model_checking", graph_parts(pid, tier), REAL_ENV_ASSUMPTIONS, rule)
+        return run_check(pid, tier, "model_checking", graph_parts(pid, tier), REAL_ENV_ASSUMPTIONS, rule, extra=KERNELS.get(pid) and kernel_extra(pid, KERNELS[pid]))
     if pid in ("C01", "C10", "C20"):
         rule = ("generated describing functions: every program within the deviation budget of the base program is built with @xn/@dag and called with symbolic inputs; "
                 "the same describing code evaluated with the plain callables is the reference; z3 proves result equality for all inputs and node functions; "
                 "distinct = distinct program spec")
-        return run_check(pid, tier, "translation_validation", dataflow_parts(pid, tier), REAL_ENV_ASSUMPTIONS + ENV_ASSUMPTIONS[:3], rule)
+        return run_check(pid, tier, "translation_validation", dataflow_parts(pid, tier), REAL_ENV_ASSUMPTIONS + ENV_ASSUMPTIONS[:3], rule, extra=KERNELS.get(pid) and kernel_extra(pid, KERNELS[pid]))
     if pid == "C19":
         rule = ("programs x (inputs, outputs) x alias form, all solver-chosen; composed DAG called with fresh symbolic values; reference = original program with the input "
                 "nodes' values substituted; distinct = distinct (program, inputs, outputs, alias form)")
@@ -354,7 +378,7 @@ def main(argv):
     if pid in ("C11", "C15", "C18"):
         rule = ("operation histories on one DAG instance: every sequence of operations up to the stated length x program / setup placement / selection is a solver-chosen path; "
                 "call arguments are fresh symbolic values and node values are terms, so result equalities are decided by z3; distinct = distinct (program, history)")
-        return run_check(pid, tier, "model_checking", history_parts(pid, tier), REAL_ENV_ASSUMPTIONS, rule)
+        return run_check(pid, tier, "model_checking", history_parts(pid, tier), REAL_ENV_ASSUMPTIONS, rule, extra=KERNELS.get(pid) and kernel_extra(pid, KERNELS[pid]))
     if pid == "C16":
         rule = ("real threads under a cooperative controller: the order in which threads pass node-entry gates / the pause point of a build and the other thread's operation are solver-chosen; "
                 "results are terms over per-thread symbolic arguments; distinct = distinct (shape, alternation) resp. (pause point, operation)")
